@@ -52,19 +52,53 @@ func r06_1(c *Ctx, r *Report) {
 			checked[helper] = true
 			monthsView(c, r, rule, helper, "accumulate", false)
 		}
+		// a thin wrapper that hands the month list, its own year and the request to an unexported worker: the worker
+		// is the view, its parameters standing for those values
+		if loops, _ := findLoops(fn); len(loops) == 0 && helper == nil {
+			if d := pureDelegation(fn); d != nil && d.callee.Object() != nil && !d.callee.Object().Exported() {
+				roles := map[*ssa.Parameter]string{}
+				for i, a := range d.call.Common().Args {
+					if i >= len(d.callee.Params) {
+						break
+					}
+					if _, f, ok := getterField(c, a); ok {
+						switch f {
+						case "LunarYear.year":
+							roles[d.callee.Params[i]] = "year"
+						case "LunarYear.months":
+							roles[d.callee.Params[i]] = "months"
+						}
+					} else if len(fn.Params) > 1 && a == ssa.Value(fn.Params[1]) {
+						roles[d.callee.Params[i]] = "asked"
+					}
+				}
+				monthsViewVia(c, r, rule, d.callee, kind, false, fn, roles)
+				continue
+			}
+		}
 		monthsView(c, r, rule, fn, kind, helper != nil)
 	}
 }
 
 // monthsView follows the loop of one view (or filter helper) over the months.
 func monthsView(c *Ctx, r *Report, rule string, fn *ssa.Function, kind string, prefiltered bool) {
+	monthsViewVia(c, r, rule, fn, kind, prefiltered, nil, nil)
+}
+
+// monthsViewVia: fn holds the loop; when wrapper is set, fn is the worker the exported view hands its work to
+// and roles says which of fn's parameters is the object's year, the requested month number and the month list.
+func monthsViewVia(c *Ctx, r *Report, rule string, fn *ssa.Function, kind string, prefiltered bool, wrapper *ssa.Function, roles map[*ssa.Parameter]string) {
 	name := fn.Name()
-	construct := fname(fn) + " filters the month table by m.GetYear() == year"
+	shown := fn
+	if wrapper != nil {
+		name, shown = wrapper.Name(), wrapper
+	}
+	construct := fname(shown) + " filters the month table by m.GetYear() == year"
 	if prefiltered {
-		construct = fname(fn) + " goes through the months of its own year"
+		construct = fname(shown) + " goes through the months of its own year"
 	}
 	iter := false
-	for _, p := range c.eff.Of(fn).paramReads(0) {
+	for _, p := range c.eff.Of(shown).paramReads(0) {
 		if p == ".months" {
 			iter = true
 		}
@@ -156,7 +190,16 @@ func monthsView(c *Ctx, r *Report, rule string, fn *ssa.Function, kind string, p
 					asked = 7
 				}
 				leaf := func(fr *evalFrame, v ssa.Value) (interface{}, bool) {
-					if fr.parent == nil && len(fn.Params) > 1 && v == ssa.Value(fn.Params[1]) {
+					if p, isP := v.(*ssa.Parameter); isP && fr.parent == nil && wrapper != nil {
+						switch roles[p] {
+						case "year":
+							return int64(2020), true
+						case "asked":
+							return asked, true
+						}
+						return nil, false
+					}
+					if fr.parent == nil && wrapper == nil && len(fn.Params) > 1 && v == ssa.Value(fn.Params[1]) {
 						return asked, true
 					}
 					if ta, ok := v.(*ssa.TypeAssert); ok && structName(ta.AssertedType) == "LunarMonth" {
